@@ -395,6 +395,8 @@ impl Terminal for UnixTerminal {
         let mut first_loop = true;
         let timeout_instant = timeout.map(|dur| Instant::now() + dur);
         while !self.write_queue.is_empty() || self.events_queue.is_empty() {
+            #[cfg(feature = "verif-hooks")]
+            verif_hooks::point(verif_hooks::Point::LoopStart);
             // process timeout
             let delay = match timeout_instant {
                 Some(timeout_instant) => {
@@ -415,6 +417,8 @@ impl Terminal for UnixTerminal {
 
             let tty_write = PollEvent::new(&self.tty).with_writable(!self.write_queue.is_empty());
             self.poll.register(tty_write)?;
+            #[cfg(feature = "verif-hooks")]
+            verif_hooks::point(verif_hooks::Point::BeforeSelect);
             let (waker, signal, tty) = match self.poll.wait(delay) {
                 Ok(events) => {
                     tracing::trace!(count = events.len(), "[UnixTerminal.poll] events");
@@ -433,6 +437,9 @@ impl Terminal for UnixTerminal {
                 }
             };
 
+            #[cfg(feature = "verif-hooks")]
+            verif_hooks::point(verif_hooks::Point::AfterSelect);
+
             // process pending output
             if tty.is_writable() {
                 let tee = self.tee.as_mut();
@@ -443,6 +450,9 @@ impl Terminal for UnixTerminal {
                 })?;
                 self.stats.send += send;
             }
+
+            #[cfg(feature = "verif-hooks")]
+            verif_hooks::point(verif_hooks::Point::BeforeSignals);
 
             // process signals
             if signal.is_readable() {
@@ -464,6 +474,9 @@ impl Terminal for UnixTerminal {
                 }
             }
 
+            #[cfg(feature = "verif-hooks")]
+            verif_hooks::point(verif_hooks::Point::BeforeWakerRead);
+
             // process waker
             if waker.is_readable() {
                 let mut buf = [0u8; 1024];
@@ -471,6 +484,9 @@ impl Terminal for UnixTerminal {
                     self.events_queue.push_back(TerminalEvent::Wake);
                 }
             }
+
+            #[cfg(feature = "verif-hooks")]
+            verif_hooks::point(verif_hooks::Point::BeforeTtyRead);
 
             // process pending input
             if tty.is_readable() {
@@ -500,6 +516,9 @@ impl Terminal for UnixTerminal {
                     }
                 }
             }
+
+            #[cfg(feature = "verif-hooks")]
+            verif_hooks::point(verif_hooks::Point::LoopEnd);
 
             // indicate that first loop was executed
             first_loop = false;
@@ -610,6 +629,17 @@ impl AsFd for Tty {
 
 impl Write for Tty {
     fn write(&mut self, buf: &[u8]) -> std::io::Result<usize> {
+        #[cfg(feature = "verif-hooks")]
+        let buf = match verif_hooks::write_fault(buf.len()) {
+            verif_hooks::WriteFault::None => buf,
+            verif_hooks::WriteFault::Short(size) => &buf[..size.min(buf.len())],
+            verif_hooks::WriteFault::WouldBlock => {
+                return Err(std::io::ErrorKind::WouldBlock.into());
+            }
+            verif_hooks::WriteFault::Interrupted => {
+                return Err(std::io::ErrorKind::Interrupted.into());
+            }
+        };
         rustix::io::write(self, buf).map_err(std::io::Error::from)
     }
 
@@ -777,5 +807,89 @@ impl PollEvents<'_> {
 
     pub fn len(&self) -> usize {
         self.matched.len()
+    }
+}
+
+/// Verification hooks (add-only, compiled only with the `verif-hooks` feature).
+///
+/// Lets a test harness own the schedule of `UnixTerminal::poll`: a thread local
+/// callback is invoked at named points of the poll loop, and writes to the tty can
+/// be turned into short writes, `EAGAIN` or `EINTR`.
+#[cfg(feature = "verif-hooks")]
+pub mod verif_hooks {
+    use std::cell::RefCell;
+
+    /// Named points inside `UnixTerminal::poll` loop
+    #[derive(Debug, Clone, Copy, PartialEq, Eq, Hash)]
+    pub enum Point {
+        LoopStart,
+        BeforeSelect,
+        AfterSelect,
+        BeforeSignals,
+        BeforeWakerRead,
+        BeforeTtyRead,
+        LoopEnd,
+    }
+
+    /// Fault to be injected into the next write to the tty
+    #[derive(Debug, Clone, Copy, PartialEq, Eq)]
+    pub enum WriteFault {
+        /// Perform write as is
+        None,
+        /// Write only first `n` bytes of the buffer
+        Short(usize),
+        /// Fail with `EAGAIN`
+        WouldBlock,
+        /// Fail with `EINTR`
+        Interrupted,
+    }
+
+    type PointHook = Box<dyn FnMut(Point)>;
+    type WriteHook = Box<dyn FnMut(usize) -> WriteFault>;
+
+    thread_local! {
+        static POINT_HOOK: RefCell<Option<PointHook>> = const { RefCell::new(None) };
+        static WRITE_HOOK: RefCell<Option<WriteHook>> = const { RefCell::new(None) };
+    }
+
+    /// Set callback invoked (on the thread that calls poll) at every named point
+    pub fn set_point_hook(hook: Option<PointHook>) {
+        POINT_HOOK.with(|cell| *cell.borrow_mut() = hook);
+    }
+
+    /// Set callback that decides the outcome of every write to the tty
+    pub fn set_write_hook(hook: Option<WriteHook>) {
+        WRITE_HOOK.with(|cell| *cell.borrow_mut() = hook);
+    }
+
+    pub(super) fn point(point: Point) {
+        // take hook out while it is running so it can call back into the terminal
+        let hook = POINT_HOOK.with(|cell| cell.borrow_mut().take());
+        if let Some(mut hook) = hook {
+            hook(point);
+            POINT_HOOK.with(|cell| {
+                let mut cell = cell.borrow_mut();
+                if cell.is_none() {
+                    *cell = Some(hook);
+                }
+            });
+        }
+    }
+
+    pub(super) fn write_fault(size: usize) -> WriteFault {
+        let hook = WRITE_HOOK.with(|cell| cell.borrow_mut().take());
+        match hook {
+            None => WriteFault::None,
+            Some(mut hook) => {
+                let fault = hook(size);
+                WRITE_HOOK.with(|cell| {
+                    let mut cell = cell.borrow_mut();
+                    if cell.is_none() {
+                        *cell = Some(hook);
+                    }
+                });
+                fault
+            }
+        }
     }
 }
